@@ -138,6 +138,10 @@ class BaseIntervalScorer(BaseEstimator):
         """
         self.check_is_fitted()
         cuts = as_2d_array(cuts, vector_as_column=False)
+        if np.issubdtype(cuts.dtype, np.integer):
+            # Differences and products of positions are taken below and in the scorers:
+            # narrow or unsigned integer types would wrap around.
+            cuts = cuts.astype(np.int64)
         cuts = self._check_cuts(cuts)
         n_samples = np.shape(self._X)[0]
         if cuts.size > 0 and (cuts.min() < 0 or cuts.max() > n_samples):
